@@ -50,6 +50,8 @@ type RpcCall struct {
 	// ExtraPolls: channel kind: after its Receive loop saw the end of the stream the caller polls Receive this
 	// many more times (a drain loop, a defensive re-poll) before it asks for the response
 	ExtraPolls int `json:"extra_polls,omitempty"`
+	// ReqBuilder: the request is built with rpc.NewRequest (pooled builder state) and freed twice
+	ReqBuilder bool `json:"req_builder,omitempty"`
 }
 
 type RpcPlan struct {
@@ -125,6 +127,7 @@ func genRpcPlan(g *simrt.Rng, tier string) *RpcPlan {
 		if c.Kind == "channel" && g.Bool(0.2) {
 			c.ExtraPolls = 1 + g.IntN(2)
 		}
+		c.ReqBuilder = g.Bool(0.3)
 		if c.Kind == "channel" && c.CancelUs == 0 && g.Bool(0.15) {
 			c.OpCtx = 1 + g.IntN(2)
 			c.OpUs = simrt.Pick(g, 1, 50, 2000, 40000)
@@ -196,6 +199,29 @@ func (r *rpcRun) streamBytes(id, dir, k, size int) []byte {
 }
 
 func (r *rpcRun) buildRequest(id int) (prpc.Request, func()) {
+	if r.p.Calls[id].ReqBuilder {
+		// the library's own request builder (pooled state); its Free is idempotent by design, and callers
+		// lean on that: a deferred Free plus an early one
+		rq := rpc.NewRequest()
+		call := rq.Add(fmt.Sprintf("m%d", id))
+		in := call.Input()
+		in.Field(1).Uint32(uint32(id))
+		in.Field(2).Bytes(r.reqBytes(id))
+		if err := in.End(); err != nil {
+			panic(err)
+		}
+		if err := call.End(); err != nil {
+			panic(err)
+		}
+		req, st := rq.Build()
+		if !st.OK() {
+			r.fail("C18-differs", "call %d: building a request with rpc.NewRequest failed: %s", id, stName(st))
+		}
+		return req, func() {
+			rq.Free()
+			rq.Free()
+		}
+	}
 	buf := alloc.NewBuffer()
 	w := prpc.NewRequestWriterBuffer(buf)
 	calls := w.Calls()
